@@ -1059,8 +1059,8 @@ def b_property(I, fget=None, fset=None, fdel=None, doc=None):
     return VProperty(fget, fset, fdel)
 
 
-def obj_new(I, cls, *a, **k):
-    return new_object(I, cls)
+def obj_new(I, _cls, *a, **k):
+    return new_object(I, _cls)
 
 
 def obj_init(I, self, *a, **k):
@@ -1149,17 +1149,17 @@ def make_builtins(I):
 
     # class-call behaviour for builtin types: handled through __new__
     def tnew(fn):
-        return VStaticMethod(Builtin('new', lambda I, cls, *a, **k: fn(I, *a, **k)))
+        return VStaticMethod(Builtin('new', lambda I, _cls, *a, **k: fn(I, *a, **k)))
 
-    def dict_new(I, cls, *a, **k):
-        if cls is dcls:
+    def dict_new(I, _cls, *a, **k):
+        if _cls is dcls:
             return b_dict(I, *a, **k)
-        return new_object(I, cls)
+        return new_object(I, _cls)
 
-    def list_new(I, cls, *a, **k):
-        if cls is lcls:
+    def list_new(I, _cls, *a, **k):
+        if _cls is lcls:
             return b_list(I, *a)
-        return new_object(I, cls)
+        return new_object(I, _cls)
     dcls.ns['__new__'] = VStaticMethod(Builtin('dict.__new__', dict_new))
     lcls.ns['__new__'] = VStaticMethod(Builtin('list.__new__', list_new))
     b['int'].ns['__new__'] = tnew(b_int)
@@ -1178,7 +1178,7 @@ def make_builtins(I):
     fns = dict(isinstance=b_isinstance, len=b_len, abs=b_abs, min=lambda I, *a, **k: _minmax(I, a, k, True),
                max=lambda I, *a, **k: _minmax(I, a, k, False), zip=b_zip, enumerate=b_enumerate, range=b_range,
                sorted=b_sorted, sum=b_sum, any=b_any, all=b_all, getattr=b_getattr, hasattr=b_hasattr,
-               setattr=b_setattr, callable=b_callable, issubclass=b_issubclass, round=b_round, super=b_super,
+               setattr=b_setattr, delattr=lambda I, o, n: I.delattr(o, n), callable=b_callable, issubclass=b_issubclass, round=b_round, super=b_super,
                print=b_print, id=b_id, hash=b_hash, iter=b_iter, next=b_next, reversed=b_reversed, map=b_map,
                filter=b_filter, format=b_format, divmod=b_divmod, repr=b_repr, property=b_property)
     for k, v in fns.items():
